@@ -148,6 +148,18 @@ def handle (env : Env) (j : Json) : R (Env × Json) := do
       match parseTags bs with
       | .error e => pure (env, jErr e)
       | .ok tags => pure (env, decodeReply env τ pdu tags)
+  | "castin" =>    -- Any.cast_in(element): the tags appended
+      let r ← refOfJson (← fld j "ref")
+      let v ← valOfJson (← fld j "v")
+      match castIn env r v with
+      | .error e => pure (env, jErr e)
+      | .ok ts => pure (env, jOk [("tags", jTags ts)])
+  | "castout" =>   -- Any.cast_out(klass)
+      let r ← refOfJson (← fld j "ref")
+      let tags ← tagsOfJson (← fld j "tags")
+      match castOut env r tags with
+      | .error e => pure (env, jErr e)
+      | .ok v => pure (env, jOk [("v", jVal v)])
   | "service" =>   -- registry lookup, then decode as PDU
       let reg ← regOf (← fldStr j "kind")
       let bs ← fldHex j "hex"
